@@ -61,7 +61,44 @@ def si_tables(prog):
     return out
 
 
+def polar_rule(prog):
+    """(key, verdict, detail, site): in polar mode the angle is left out only under a test on the angle itself"""
+    m = prog.mod(UT); cls = m.defs.get('ScientificComplex')
+    out = []
+    if not isinstance(cls, ast.ClassDef): return [('polar', None, 'ScientificComplex not found', '')]
+    mem = prog.find_member(m, cls, '__str__')
+    fn = mem[1]; site = prog.site(mem[0], fn)
+    polar_ifs = [n for n in ast.walk(fn) if isinstance(n, ast.If) and ast.unparse(n.test) == 'self.polar']
+    if not polar_ifs: return [('polar', None, 'no `if self.polar` branch found', site)]
+    sup = []
+    for n in ast.walk(polar_ifs[0]):
+        if isinstance(n, ast.If) and n is not polar_ifs[0] and n.body and isinstance(n.body[-1], ast.Return):
+            r = ast.unparse(n.body[-1].value) if n.body[-1].value is not None else ''
+            if '∠' not in r and 'angle' not in r: sup.append(n)
+    if not sup: return [('polar', None, 'no angle-suppressing branch found', site)]
+    helpers = {x.name: x for x in cls.body if isinstance(x, ast.FunctionDef)}
+    for i, n in enumerate(sup):
+        reads = set()
+        def collect(t, depth=0):
+            for a in ast.walk(t):
+                if isinstance(a, ast.Attribute) and isinstance(a.value, ast.Name) and a.value.id == 'self':
+                    if a.attr in helpers and a.attr not in ('angle',) and depth < 3 and prog.is_property(helpers[a.attr]):
+                        collect(helpers[a.attr], depth + 1)          # a helper property: look at what IT reads
+                    else: reads.add(a.attr)
+        collect(n.test)
+        ok = reads <= {'angle', 'deg'}
+        out.append((f'polar:suppress#{i}', ok, f"angle omitted under `{ast.unparse(n.test)[:70]}` which reads self.{sorted(reads)}" + ('' if ok else
+                    ' -- the test is not a test on the angle: a phase near ±pi (negative real quantity) is printed as a bare positive magnitude'), site))
+    a = helpers.get('angle')
+    oka = a is not None and 'np.angle(self.value, deg=self.deg)' in ast.unparse(a)
+    out.append(('polar:angle', oka, 'angle = np.angle(value, deg=self.deg)', site))
+    return out
+
+
 def run(rep, prog, tier):
+    from .hidden import no_hidden_state
+    rep.rule('R18.state', 'no hidden state in the anchored modules: no function writes a module-level object, no caching decorator / cached property')
+    no_hidden_state(rep, 'R18.state', prog, ['Utils.py', 'SimpleCircuit/Display.py'])
     rep.rule('R18.tables', 'in every prefix table of Utils.py / Display.py each key that is a multiple of three carries its SI letter; helpers pass their unit')
     rep.rule('R18.exp3', 'exponent3 = 3*floor((precision + exponent - 1)/3) (a multiple of three by construction) and mantissa3 = mantissa * 10**(exponent - exponent3)')
     rep.rule('R18.glyph', "real part renders '- ' iff real < 0, imaginary part ' - ' iff imag < 0 (else ' + '); magnitudes are rendered from abs(...)")
@@ -69,6 +106,8 @@ def run(rep, prog, tier):
     rep.assume('NOT DECIDED (main clause): half-unit accuracy of the digit string for every binary64 value, rounding carries, precision != 3')
     for key, ok, detail, site in si_tables(prog):
         rep.ob('R18.tables', key, ok, detail, site)
+    for key, ok, detail, site in polar_rule(prog):
+        rep.ob('R18.glyph', key, ok, detail, site)
     m = prog.mod(UT)
     # ---- exponent3 / mantissa3
     cls = m.defs.get('Float3')
@@ -93,18 +132,15 @@ def run(rep, prog, tier):
         for prop, part, neg, pos in (('real_sign', 'real', '- ', ''), ('imag_sign', 'imag', ' - ', ' + ')):
             mem = prog.find_member(m, cls, prop)
             fn = mem[1]
-            first = next((st for st in fn.body if isinstance(st, ast.Assign)), None)
-            ok = None
-            if first is not None and isinstance(first.value, ast.IfExp):
-                ev = Evaluator(prog)
-                t = ev.ev(first.value, {'__parent__': None, 'self': A('self')}, m, 1)
-                sp = spec(ev, f"{pos!r} if self.value.{part} >= 0 else {neg!r}", {'self': A('self')}, m)
-                ok = compare_terms(t, sp)
-            rep.ob('R18.glyph', prop, ok, f"{prop}: {ast.unparse(first.value) if first is not None else None}", prog.site(mem[0], fn))
+            ev = Evaluator(prog)
+            t = ev.call_fn(fn, mem[0], [A('self')], {}, {'__parent__': None}, 1)
+            sp = spec(ev, f"(({pos!r} if self.value.{part} >= 0 else {neg!r}).strip() if self.compact else ({pos!r} if self.value.{part} >= 0 else {neg!r}))", {'self': A('self')}, m)
+            rep.ob('R18.glyph', prop, compare_terms(t, sp), f"{prop} = {t!r:.160}", prog.site(mem[0], fn), lhs=t, rhs=sp)
         for prop, want in (('real', 'abs(self.value.real)'), ('imag', 'abs(self.value.imag)'), ('abs', 'abs(self.value)')):
             mem = prog.find_member(m, cls, prop)
-            r = [x for x in ast.walk(mem[1]) if isinstance(x, ast.Return)]
-            a0 = ast.unparse(r[0].value.args[0]) if r and isinstance(r[0].value, ast.Call) and r[0].value.args else None
+            from ..prog import returned_expr
+            rv = returned_expr(mem[1])
+            a0 = ast.unparse(rv.args[0]) if isinstance(rv, ast.Call) and rv.args else None
             rep.ob('R18.glyph', f'magnitude:{prop}', a0 == want, f'rendered from {a0}', prog.site(mem[0], mem[1]))
     else:
         rep.ob('R18.glyph', 'ScientificComplex', None, 'class not found')
@@ -115,7 +151,8 @@ def run(rep, prog, tier):
         fn = mem[1]
         stmts = [st for st in fn.body if not (isinstance(st, ast.Expr) and isinstance(st.value, ast.Constant))]
         first = stmts[0] if stmts else None
-        ok = isinstance(first, ast.If) and 'is_inf' in ast.unparse(first.test) and first.body and isinstance(first.body[0], ast.Return) and '∞' in ast.unparse(first.body[0])
+        ok = (isinstance(first, ast.If) and 'is_inf' in ast.unparse(first.test) and first.body and isinstance(first.body[-1], ast.Return)
+              and '∞' in ast.unparse(ast.Module(body=first.body, type_ignores=[])))
         rep.ob('R18.inf', '__str__:saturation-first', ok, f'first statement: {ast.unparse(first)[:80] if first is not None else None}', prog.site(mem[0], fn))
     fp = m.defs.get('FloatPrecision')
     if isinstance(fp, ast.ClassDef):
